@@ -312,6 +312,11 @@ impl<'a> Gen<'a> {
                 22 if i + 1 < n && i > 0 && !in_table => {
                     Inl::Break(self.rng.chance(1, 3))
                 }
+                23 if !self.p.has("escapes") && !in_table && self.rng.chance(1, 3) => {
+                    // entities that decode to characters without any Markdown meaning are presentation only
+                    let (s, d) = *self.rng.pick(&[("&copy;", "©"), ("&amp;", "&"), ("&mdash;", "—"), ("&#233;", "é")]);
+                    Inl::Entity(s.to_string(), d.to_string())
+                }
                 23 if self.p.has("escapes") => {
                     if self.rng.chance(1, 2) {
                         Inl::Escape(*self.rng.pick(&['*', '_', '#', '[', '`', '<', '\\']))
